@@ -15,10 +15,7 @@ def load_prop(pid):
 
 def setup():
   """MANIFEST.setup_cmd: build every Lean target registered in the lakefile (offline)."""
-  import re
-  with open(os.path.join(framework.LEAN_DIR, 'lakefile.toml')) as f:
-    txt = f.read()
-  exes = re.findall(r'\[\[lean_exe\]\]\s*\nname = "([^"]+)"', txt)
+  exes = []
   with framework.BuildLock():
     # Translators first (the generated tables must exist before lake sees them).
     for pid in all_props():
@@ -38,6 +35,8 @@ def setup():
       except ModuleNotFoundError:
         continue
       targets += prop.props_modules
+      if prop.driver:
+        exes.append(prop.driver)
     ok, errors, text = framework.lake_build(targets + exes)
     if not ok:
       # Setup itself never gives a verdict; the checks will report what is broken.
